@@ -517,7 +517,7 @@ func sectionParked(rng *vh.Rng, corpus []parkedCase) {
 // nomatch
 
 type nomatchCase struct {
-	Kind string `json:"kind"` // other-partition | where-rejected | where-accepted | where-rejected-then-accepted | range-rejected-then-accepted
+	Kind string `json:"kind"` // other-partition | where-rejected | where-accepted | where-rejected-then-accepted | range-rejected-then-accepted | big-limit-accepted | big-limit-nothing
 	RPC  bool   `json:"rpc"`
 }
 
@@ -542,7 +542,13 @@ func runNomatch(c nomatchCase, idx int, sec *vh.Section) {
 		q = "select from grp=a where ts > 5000000000000000000 limit 10"
 	}
 	done := make(chan qres, 1)
-	go func() { done <- query(srv, api.QueryRequest{Query: q, Pos: "tail", WaitTimeout: 1, Limit: 10}, c.RPC) }()
+	limit := 10
+	if c.Kind == "big-limit-accepted" || c.Kind == "big-limit-nothing" {
+		limit = 20000 // beyond QueryMaxLimit (10000): the server clamps it; the may-sleep test must use the clamped value
+	}
+	go func() {
+		done <- query(srv, api.QueryRequest{Query: q, Pos: "tail", WaitTimeout: 1, Limit: limit}, c.RPC)
+	}()
 	time.Sleep(250 * time.Millisecond) // asleep by now
 	var line string
 	var want []string
@@ -574,6 +580,13 @@ func runNomatch(c nomatchCase, idx int, sec *vh.Section) {
 		}
 		line = "queryloop 1 10 50 - D:- D:7"
 		lo, hi = 0, 550*time.Millisecond+margin
+	case "big-limit-accepted":
+		write(srv, "grp=a,part=p0", "new-without", "new x")
+		want = []string{"new x"}
+		line = "queryloop 1 10000 50 - D:7"
+		lo, hi = 200*time.Millisecond, 250*time.Millisecond+margin
+	case "big-limit-nothing":
+		line = "queryloop 1 10000 50 - T"
 	case "where-accepted":
 		write(srv, "grp=a,part=p0", "new-without", "new x")
 		want = []string{"new x"}
@@ -620,7 +633,7 @@ func sectionNomatch() {
 		reps = 12
 	}
 	for rep := 0; rep < reps; rep++ {
-		for _, k := range []string{"other-partition", "where-rejected", "where-accepted", "where-rejected-then-accepted", "range-rejected-then-accepted"} {
+		for _, k := range []string{"other-partition", "where-rejected", "where-accepted", "where-rejected-then-accepted", "range-rejected-then-accepted", "big-limit-accepted", "big-limit-nothing"} {
 			for _, rpc := range []bool{false, true} {
 				wg.Add(1)
 				go func(i int, c nomatchCase) { defer wg.Done(); runNomatch(c, i, sec) }(i, nomatchCase{Kind: k, RPC: rpc})
